@@ -8,12 +8,20 @@ Ins(o, q) == q \o <<Op(o)>>
 Nm(s) == Nam(s)
 
 \* form XObjects of the generated documents
-FormDefs == [Fm1 |-> [m |-> <<2, 0, 0, 2, 10, 10>>,
+FormDefs == [Fm1 |-> [m |-> <<2, 0, 0, 2, 10, 10>>, own |-> TRUE, xo |-> <<>>,
                       body |-> <<Op("BT"), Nm("F1"), N(10), Op("Tf"), Str(<<65>>), Op("Tj"), Op("ET"),
                                  N(0), N(0), N(5), N(5), Op("re"), Op("f"), N(3), N(0), N(0), N(3), N(0), N(0), Op("cm")>>],
-             Fm2 |-> [m |-> Ident,
+             Fm2 |-> [m |-> Ident, own |-> FALSE, xo |-> <<>>,
                       body |-> <<N(0), N(1), N(0), Op("rg"), N(2), Op("w"), Op("q"), Op("BT"), Nm("F1"), N(20), Op("Tf"), N(2), Op("Tc"),
-                                 Str(<<66, 65>>), Op("Tj"), Op("ET"), N(1), N(1), Op("m"), N(4), N(1), Op("l"), Op("S")>>]]
+                                 Str(<<66, 65>>), Op("Tj"), Op("ET"), N(1), N(1), Op("m"), N(4), N(1), Op("l"), Op("S")>>],
+             \* nesting and name scoping: Fm3 has its own resources in which the NAME Fm1 means another form (Fm4), and Fm2
+             \* is not visible at all; Fm4 has no resources of its own, so inside it Fm1 still means Fm4's sibling entry
+             Fm3 |-> [m |-> <<1, 0, 0, 1, 5, 0>>, own |-> TRUE, xo |-> [Fm1 |-> "Fm4"],
+                      body |-> <<Op("BT"), Nm("F1"), N(10), Op("Tf"), Str(<<66>>), Op("Tj"), Op("ET"), Nm("Fm1"), Op("Do"),
+                                 Nm("Fm2"), Op("Do"), Op("BT"), Nm("F1"), N(10), Op("Tf"), Str(<<65>>), Op("Tj"), Op("ET")>>],
+             Fm4 |-> [m |-> <<1, 0, 0, 1, 0, 7>>, own |-> FALSE, xo |-> <<>>,
+                      body |-> <<N(1), N(0), N(0), Op("rg"), Op("BT"), Nm("F1"), N(10), Op("Tf"), Str(<<65, 66>>), Op("Tj"), Op("ET")>>]]
+PageXODef == [Fm1 |-> "Fm1", Fm2 |-> "Fm2", Fm3 |-> "Fm3"]
 
 PreText == <<Op("BT"), Nm("F1"), N(10), Op("Tf")>>
 A == <<65>>  AB == <<65, 66>>  ASB == <<65, 32, 66>>
@@ -23,11 +31,11 @@ GPos == { Ins("Td", <<N(3), N(0)>>), Ins("Td", <<N(0), N(-2)>>), Ins("TD", <<N(1
           <<Op("T*")>>, Ins("TL", <<N(4)>>), Ins("Tj", <<Str(AB)>>), Ins("'", <<Str(A)>>),
           Ins("Td", <<N(0), N(0)>>), Ins("TD", <<N(0), N(0)>>) }
 GSpace == { Ins("Tc", <<N(1)>>), Ins("Tc", <<N(3)>>), Ins("Tw", <<N(2)>>), Ins("Tz", <<N(200)>>), Ins("Tz", <<N(50)>>),
-            Ins("Ts", <<N(2)>>), Ins("Tj", <<Str(ASB)>>), Ins("TJ", <<Arr(<<Str(A), N(-100), Str(AB)>>)>>),
+            Ins("Ts", <<N(2)>>), Ins("Tj", <<Str(ASB)>>), Ins("Tj", <<Str(<<67, 65, 68, 65>>)>>), Ins("TJ", <<Arr(<<Str(A), N(-100), Str(AB)>>)>>),
             Ins("TJ", <<Arr(<<N(-200), Str(A)>>)>>), Ins("\"", <<N(2), N(1), Str(AB)>>),
             Ins("Tf", <<Nm("F2"), N(10)>>) \o Ins("Tj", <<Str(<<0, 65, 0, 32>>)>>) \o Ins("Tf", <<Nm("F1"), N(10)>>) }
 GState == { <<Op("q")>>, <<Op("Q")>>, Ins("cm", <<N(2), N(0), N(0), N(2), N(1), N(1)>>), Ins("cm", <<N(0), N(1), N(-1), N(0), N(0), N(0)>>),
-            Ins("Do", <<Nm("Fm1")>>), Ins("Do", <<Nm("Fm2")>>), Ins("Tj", <<Str(A)>>), Ins("rg", <<N(1), N(0), N(0)>>),
+            Ins("Do", <<Nm("Fm1")>>), Ins("Do", <<Nm("Fm2")>>), Ins("Do", <<Nm("Fm3")>>), Ins("Tj", <<Str(A)>>), Ins("rg", <<N(1), N(0), N(0)>>),
             Ins("Tc", <<N(1)>>), Ins("re", <<N(0), N(0), N(2), N(3)>>) \o <<Op("B")>> }
 GPath == { Ins("m", <<N(0), N(0)>>), Ins("l", <<N(5), N(0)>>), Ins("l", <<N(5), N(4)>>), Ins("l", <<N(0), N(4)>>), Ins("l", <<N(0), N(0)>>),
            <<Op("h")>>, Ins("re", <<N(1), N(1), N(4), N(3)>>), Ins("c", <<N(1), N(2), N(3), N(4), N(5), N(6)>>),
